@@ -68,7 +68,8 @@ Section Visibility.
       let a := vdivs n_in (vnorm n_in) in
       let b := vdivs n_out (vnorm n_out) in
       let c := vdot a b in
-      if teqb c (- (1))%T then mat_flip
+      if teqb c 1%T then mat_id       (* parallel vectors of different length (fix in /repo) *)
+      else if teqb c (- (1))%T then mat_flip
       else
         let v := vcross a b in
         let s := vnorm v in
